@@ -112,6 +112,39 @@ pub fn with_deadline<T: Send + 'static>(limit: Duration, f: impl FnOnce() -> T +
     rx.recv_timeout(limit).ok()
 }
 
+/// Cross-process lock for the fixed loopback ports 389/636 (C17 and C18 both need them for
+/// host-less URLs and may run at the same time): a directory holding the owner's PID; a lock
+/// whose owner is gone is taken over.
+pub struct PortLock(String);
+
+pub fn lock_default_ports() -> PortLock {
+    let dir = "/verif/build/.ports.lock".to_string();
+    let _ = std::fs::create_dir_all("/verif/build");
+    let t0 = std::time::Instant::now();
+    loop {
+        if std::fs::create_dir(&dir).is_ok() {
+            let _ = std::fs::write(format!("{}/pid", dir), std::process::id().to_string());
+            return PortLock(dir);
+        }
+        let owner = std::fs::read_to_string(format!("{}/pid", dir)).ok().and_then(|s| s.trim().parse::<u32>().ok());
+        let alive = owner.map_or(t0.elapsed() < Duration::from_secs(2), |p| std::path::Path::new(&format!("/proc/{}", p)).exists());
+        if !alive {
+            let _ = std::fs::remove_dir_all(&dir);
+            continue;
+        }
+        if t0.elapsed() > Duration::from_secs(900) {
+            panic!("verif-machinery: the default-port lock {} is held by live process {:?} for 15 minutes", dir, owner);
+        }
+        std::thread::sleep(Duration::from_millis(100));
+    }
+}
+
+impl Drop for PortLock {
+    fn drop(&mut self) {
+        let _ = std::fs::remove_dir_all(&self.0);
+    }
+}
+
 pub fn scratch_dir() -> String {
     let d = format!("/verif/build/e4-{}", std::process::id());
     let _ = std::fs::create_dir_all(&d);
